@@ -93,9 +93,11 @@ DoRst == /\ (Ev.s \in st.mustErr => Ev.code = "FC")                             
          /\ (Ev.code = "FC" => Ev.s \in st.mustErr \cup st.mayErr \cup st.fcDone)     \* an honest peer never draws one (each offending frame may draw its own)
          /\ Step("rst", [st EXCEPT !.reset[Ev.s] = TRUE, !.mustErr = @ \ {Ev.s}, !.mayErr = @ \ {Ev.s},
                                    !.fcDone = IF Ev.code = "FC" THEN @ \cup {Ev.s} ELSE @])
+\* GOAWAY(NO_ERROR) is the graceful kind: open streams are served to the end under the same rules, the ledger goes on
 DoGoAway == /\ (Ev.code = "FC" => (st.mustErr \cup st.mayErr) # {})
             /\ (0 \in st.mustErr => Ev.code = "FC")
-            /\ Step("goaway", [st EXCEPT !.dead = TRUE, !.mustErr = {}, !.mayErr = {}])
+            /\ IF Ev.code = "NO" /\ 0 \notin st.mustErr THEN Step("goaway", st)
+               ELSE Step("goaway", [st EXCEPT !.dead = TRUE, !.mustErr = {}, !.mayErr = {}])
 \* the client granted ample window and waited: everything queued must have been delivered
 DoDrained == /\ (~st.reset[Ev.s] /\ ~st.dead) => (st.got[Ev.s] = st.body[Ev.s] /\ (st.ended[Ev.s] \/ st.body[Ev.s] = 0))    \* an empty response ends with its HEADERS frame
              /\ Step("drained", st)
